@@ -289,14 +289,14 @@ def updateOne {ε} (c : Cfg ε) (aheadF : Rec ε → Run ε → Bool) (st : DSta
       | some t' => some ({ s with table := t' }, out ++ [rr])
 
 /-- `on_distributed_update`, parameterised by the "ahead" test and by whether the
-updated list is filtered a second time after memorising (fix F4). -/
+updated list is filtered a second time after the completed/halted lists were applied and memorised (fix F4). -/
 def remoteStepG {ε} (aheadF : Rec ε → Run ε → Bool) (refilter : Bool)
     (c : Cfg ε) (s : DState ε) (comp halt upd : List (Rec ε)) : Option (DState ε × Notif ε) :=
   let (comp1, halt1, upd1) := checkAgainstCache c s comp halt upd
   let s1 := maybeCache c s comp1 halt1
-  let upd2 := if refilter then (checkAgainstCache c s1 [] [] upd1).2.2 else upd1
   let (s2, compOut) := comp1.foldl (removeOne c true) (s1, [])
   let (s3, haltOut) := halt1.foldl (removeOne c false) (s2, [])
+  let upd2 := if refilter then (checkAgainstCache c s3 [] [] upd1).2.2 else upd1
   match foldlM' (updateOne c aheadF) (s3, []) upd2 with
   | none => none
   | some (s4, updOut) =>
